@@ -36,7 +36,7 @@
 #define NS __attribute__((no_sanitize_thread, noinline))
 #define MAXCB 32
 enum { CF_PENDING_AT_FORK = 0, CF_HELPER_ASLEEP_AT_FORK = 1, CF_PERCPU = 2, CF_PERTHREAD = 3, CF_HT_RESIZE_QUEUED = 4, CF_BP_READER_IN_SECTION_AT_FORK = 5,
-       CF_CHILD_OK = 6, CF_FORKED_TWICE = 7, CF_CB_RAN_BEFORE_FORK = 8, CF_LATE_TABLE = 9, CF_CHILD_OWN_TABLE = 10 };
+       CF_CHILD_OK = 6, CF_FORKED_TWICE = 7, CF_CB_RAN_BEFORE_FORK = 8, CF_LATE_TABLE = 9, CF_CHILD_OWN_TABLE = 10, CF_CHILD_SECTION_VS_GP = 11, CF_BP_SYNC_AT_FORK = 12 };
 
 #ifdef FL_QSBR
 # define RLOCK() F(thread_online)()
@@ -63,6 +63,9 @@ static NS int get_ncb(void) { return ncb; }
 static NS int get_ran(int i) { return ran[i]; }
 static NS void sec_count(int d) { readers_in_section += d; }
 static NS int get_readers_in_section(void) { return readers_in_section; }
+static int syncs_in_flight;
+static NS void sync_count(int d) { syncs_in_flight += d; }
+static NS int get_syncs_in_flight(void) { return syncs_in_flight; }
 static NS void set_child(void) { is_child = 1; }
 
 static int match(struct cds_lfht_node *n, const void *k) { return caa_container_of(n, struct hnode, n)->key == *(const int *)k; }
@@ -112,6 +115,16 @@ static void child_main(void)
 	if (mask & 1) { RLOCK(); RUNLOCK(); }
 	if (mask & 2) F(synchronize_rcu)();
 	if (mask & 4) { int i = new_cb(); RLOCK(); F(call_rcu)(&cbs[i].rh, cb_fn); RUNLOCK(); }
+	if (mask & 256) {
+		/* the child's own grace periods must wait for the child's own reader (the forking thread): a callback queued inside a section must not
+		 * run before that section ends */
+		int i = new_cb();
+		RLOCK();
+		F(call_rcu)(&cbs[i].rh, cb_fn);
+		for (int k = 0; k < 12; k++) { ds_yield(); if (get_ran(i)) ds_fail("child: callback %d ran while the forking thread was still inside the read-side section in which it queued it (the child's grace period does not wait for the child's only reader)", i); }
+		RUNLOCK();
+		ds_flag(CF_CHILD_SECTION_VS_GP);
+	}
 	if (mask & 8) { if (ht) ht_add(12); }
 	/* second generation: the child forks again with the handlers (while its own re-created helpers may be busy) */
 	if ((mask & 64) && generation == 1) { ds_flag(CF_FORKED_TWICE); do_fork(); }
@@ -130,6 +143,7 @@ static void do_fork(void)
 	for (int i = 0; i < get_ncb(); i++) { if (!get_ran(i)) pending++; else ds_flag(CF_CB_RAN_BEFORE_FORK); }
 	if (pending) ds_flag(CF_PENDING_AT_FORK);
 	if (get_readers_in_section()) ds_flag(CF_BP_READER_IN_SECTION_AT_FORK);
+	if (get_syncs_in_flight()) ds_flag(CF_BP_SYNC_AT_FORK);
 	if (nforks++) ds_flag(CF_FORKED_TWICE);
 	F(call_rcu_before_fork)();
 #ifdef FL_BP
@@ -144,6 +158,7 @@ static void do_fork(void)
 	F(call_rcu_after_fork_parent)();
 	int st = 0;
 	while (waitpid(p, &st, 0) < 0 && errno == EINTR) ;
+	if (WIFEXITED(st) && WEXITSTATUS(st) == 23) ds_child_budget("the forked child exceeded the step budget (its report is in the captured stderr)");
 	if (!WIFEXITED(st) || WEXITSTATUS(st) != 0)
 		ds_fail("the forked child did not complete (wait status 0x%x: %s); its report is in the captured stderr", st, WIFSIGNALED(st) ? "killed by a signal" : WEXITSTATUS(st) == 21 ? "oracle/termination failure" : WEXITSTATUS(st) == 22 ? "crash" : "other");
 	ds_flag(CF_CHILD_OK);
@@ -169,6 +184,7 @@ static void *reader_main(void *arg)
 		if (op == OP_LOCK) { RLOCK(); sec_count(1); }
 		else if (op == OP_UNLOCK) { sec_count(-1); RUNLOCK(); }
 		else if (op == OP_READ) (void) uatomic_load(&shared_word);
+		else if (op == OP_SYNC) { sync_count(1); F(synchronize_rcu)(); sync_count(-1); }
 		else if (op == OP_YIELD) ds_yield();
 		else ds_bad_case("fork: op not valid in a reader thread");
 	}
